@@ -479,7 +479,12 @@ class ExceptionFormatter:
                     error_message = self._theme["exception_type"].format(error_message)
 
             if self._diagnose and frames:
-                if issubclass(exc_type, AssertionError) and not str(exc_value) and final_source:
+                try:
+                    has_message = bool(str(exc_value))
+                except Exception:
+                    has_message = True
+
+                if issubclass(exc_type, AssertionError) and final_source and not has_message:
                     if self._colorize:
                         final_source = self._syntax_highlighter.highlight(final_source)
                     error_message += ": " + final_source
